@@ -2,7 +2,7 @@
    contexts, the unsubscribe purge, drop rules, subscription bookkeeping, the
    queue invariant, non-blocking receive and the poll-descriptor mirror. *)
 From Coq Require Import List Arith NArith Bool Lia.
-From NngV Require Import Proto.Common Proto.SubModel.
+From NngV Require Import Proto.Common Proto.PushModel Proto.PushProofs Proto.SubModel.
 Import ListNotations.
 
 Ltac simp_c := cbn [sc_id sc_topics sc_lmq sc_cap sc_rq sc_prefnew set_lmq set_rq set_topics] in *.
@@ -275,15 +275,6 @@ Theorem sub_unsubscribe_unknown fixed s k c t :
   sub_step fixed s (PSetOpt k (OUnsub t)) = (s, [OptRv E_NOENT]).
 Proof. intros F Hin. cbn. rewrite F. apply has_topic_false in Hin. now rewrite Hin. Qed.
 
-Fixpoint freed (outs : list pout) : list pmsg :=
-  match outs with [] => [] | Free m :: r => m :: freed r | _ :: r => freed r end.
-Lemma freed_app a b : freed (a ++ b) = freed a ++ freed b.
-Proof. induction a as [|[] a IH]; cbn; rewrite ?IH; auto. Qed.
-Lemma freed_map_Free l : freed (map Free l) = l.
-Proof. induction l; cbn; congruence. Qed.
-Lemma freed_fail rv l : freed (fail_aios rv l) = [].
-Proof. induction l; cbn; auto. Qed.
-
 (* the purge: what stays is exactly what still matches, in the old order; the rest is freed *)
 Theorem sub_unsubscribe_law fixed s k c t s' outs :
   find_ctx k (sb_ctxs s) = Some c -> In t (sc_topics c) -> NoDup (sc_topics c) ->
@@ -351,17 +342,17 @@ Proof. induction l as [|x l IH]; cbn; [lia|]. destruct (f x); cbn; lia. Qed.
 Lemma firstn_in {A} n (l : list A) x : In x (firstn n l) -> In x l.
 Proof. revert l. induction n; destruct l; cbn; try tauto. intros [->|H]; auto. Qed.
 
-Definition op_ok (s : sub) (o : pop) : Prop :=
+Definition sub_op_ok (s : sub) (o : pop) : Prop :=
   match o with
   | PCtxOpen k => ~ In (Some k) (map sc_id (sb_ctxs s))
   | _ => True
   end.
 
 Theorem sub_step_inv fixed s o s' outs :
-  SInv s -> op_ok s o -> sub_step fixed s o = (s', outs) -> SInv s'.
+  SInv s -> sub_op_ok s o -> sub_step fixed s o = (s', outs) -> SInv s'.
 Proof.
   intros (I1 & I2 & I3) Hok H. unfold SInv.
-  destruct o as [k a nb m|k a nb|a rv|p peer|p|p rv|p rv m|k op|k|k| |now]; cbn [sub_step op_ok] in *.
+  destruct o as [k a nb m|k a nb|a rv|p peer|p|p rv|p rv m|k op|k|k| |now]; cbn [sub_step sub_op_ok] in *.
   - inversion H; subst; auto.
   - destruct (find_ctx k (sb_ctxs s)) as [c|] eqn:F; [|inversion H; subst; auto].
     destruct (sc_lmq c) as [|m rest] eqn:Q.
@@ -557,14 +548,14 @@ Proof.
       * apply cid_eqb_eq in E. rewrite E in *.
         rewrite (find_upd_same None (fun c => set_rq c (sc_rq c ++ [a])) _ c); auto.
         rewrite F. unfold lmq_empty. simp_c. tauto.
-      * apply cid_eqb_neq in E. rewrite find_upd_other; auto; [tauto|congruence].
+      * apply cid_eqb_neq in E. rewrite find_upd_other by (try congruence; auto). tauto.
     + inversion H; subst; clear H. simp_s. unfold RInvHalf, RInv, master_nonempty. simp_s. unfold is_master.
       destruct (cid_eqb (sc_id c) None) eqn:E.
       * apply cid_eqb_eq in E. rewrite E in *.
         rewrite (find_upd_same None (fun c => set_lmq c rest) _ c); auto.
         rewrite F. unfold lmq_empty. simp_c. rewrite Q. destruct rest; cbn; [split; intros; [discriminate|reflexivity]|].
         tauto.
-      * apply cid_eqb_neq in E. rewrite find_upd_other; auto; [|congruence]. rewrite andb_false_r. tauto.
+      * apply cid_eqb_neq in E. rewrite find_upd_other by (try congruence; auto). rewrite andb_false_r. tauto.
   - (* PCancel *)
     destruct (existsb _ _); inversion H; subst; [|apply KEEP; reflexivity]. simp_s.
     unfold RInvHalf, RInv, master_nonempty. simp_s.
@@ -599,11 +590,10 @@ Proof.
                              (fixed = true -> RInv s -> RInv (mkSub (upd_ctx k f (sb_ctxs s)) rb pn r'))).
     { intros f r' Hf HM HN rb pn. unfold RInvHalf, RInv, master_nonempty. simp_s. unfold is_master in *.
       destruct (cid_eqb (sc_id c) None) eqn:E.
-      - apply cid_eqb_eq in E. rewrite (find_upd_same None f _ c); auto; [|congruence]. rewrite <- E, F.
-        destruct (HM eq_refl) as [[X ->]|[X [->|[-> ->]]]]; rewrite X; cbn; try tauto.
-        + split; intros; [discriminate|]. reflexivity.
-        + split; [discriminate|]. intros; discriminate.
-      - apply cid_eqb_neq in E. rewrite find_upd_other; auto; [|congruence]. rewrite (HN eq_refl). tauto. }
+      - apply cid_eqb_eq in E. assert (K: k = None) by congruence. rewrite K in *.
+        rewrite (find_upd_same None f _ c); auto. rewrite F.
+        destruct (HM eq_refl) as [[X ->]|[X [->|[-> ->]]]]; rewrite X; cbn; split; intros; try discriminate; try reflexivity; tauto.
+      - apply cid_eqb_neq in E. rewrite find_upd_other by (try congruence; auto). rewrite (HN eq_refl). tauto. }
     destruct op; try (inversion H; subst; apply KEEP; reflexivity).
     + destruct k; [|destruct (_ <? _)%N]; inversion H; subst; apply KEEP; reflexivity.
     + destruct (_ || _) eqn:R; inversion H; subst; [apply KEEP; reflexivity|]. clear H.
@@ -636,8 +626,7 @@ Proof.
   - (* PSockClose *)
     destruct (find_ctx None (sb_ctxs s)) as [c|] eqn:F; inversion H; subst; [|apply KEEP; reflexivity]. clear H. simp_s.
     unfold RInvHalf, RInv, master_nonempty. simp_s.
-    rewrite (find_upd_same None (fun c => set_lmq (set_rq c []) []) _ c); auto. unfold lmq_empty. simp_c. cbn.
-    split; [discriminate|]. reflexivity.
+    rewrite (find_upd_same None (fun c => set_lmq (set_rq c []) []) _ c); auto.
 Qed.
 
 Lemma sub_init_rinv : RInv sub_init /\ RInvHalf sub_init.
@@ -650,23 +639,23 @@ Fixpoint sub_run (fixed : bool) (s : sub) (ops : list pop) : sub * list (pop * s
   | o :: r => let (s1, outs) := sub_step fixed s o in
               let (s2, tr) := sub_run fixed s1 r in (s2, (o, s, outs) :: tr)
   end.
-Fixpoint ops_ok (fixed : bool) (s : sub) (ops : list pop) : Prop :=
+Fixpoint sub_ops_ok (fixed : bool) (s : sub) (ops : list pop) : Prop :=
   match ops with
   | [] => True
-  | o :: r => op_ok s o /\ ops_ok fixed (fst (sub_step fixed s o)) r
+  | o :: r => sub_op_ok s o /\ sub_ops_ok fixed (fst (sub_step fixed s o)) r
   end.
 
-Theorem sub_run_inv fixed ops : forall s, SInv s -> ops_ok fixed s ops ->
+Theorem sub_run_inv fixed ops : forall s, SInv s -> sub_ops_ok fixed s ops ->
   let s' := fst (sub_run fixed s ops) in
   SInv s' /\ (RInvHalf s -> RInvHalf s') /\ (fixed = true -> RInv s -> RInv s') /\
   (forall o st outs, In (o, st, outs) (snd (sub_run fixed s ops)) -> SInv st).
 Proof.
   induction ops as [|o r IH]; intros s HI Hok; cbn [sub_run].
-  - cbn. repeat split; auto. intros ? ? ? [].
-  - cbn [ops_ok] in Hok. destruct Hok as [Ho Hr]. destruct (sub_step fixed s o) as [s1 outs] eqn:S. cbn [fst] in Hr.
+  - cbn. split; [exact HI|]. split; [auto|]. split; [auto|]. intros o st outs [].
+  - cbn [sub_ops_ok] in Hok. destruct Hok as [Ho Hr]. destruct (sub_step fixed s o) as [s1 outs] eqn:S. cbn [fst] in Hr.
     pose proof (sub_step_inv _ _ _ _ _ HI Ho S) as HI1. destruct (sub_readable_step _ _ _ _ _ HI S) as [R1 R2].
     specialize (IH s1 HI1 Hr). destruct (sub_run fixed s1 r) as [s2 tr]. cbn [fst snd] in *.
-    destruct IH as (A & B & C & D). repeat split; auto.
+    destruct IH as (A & B & C & D). split; [exact A|]. split; [auto|]. split; [auto|].
     intros o0 st outs0 [E|Hin]; [inversion E; subst; auto|eauto].
 Qed.
 
@@ -676,7 +665,7 @@ Definition refute_ops : list pop :=
   [PPipeStart 1%N PROTO_PUB; PSetOpt None (OSub [97%N]); PRecvDone 1%N 0%N (mkPmsg [] [97%N; 98%N; 99%N]);
    PSetOpt None (OUnsub [97%N])].
 Theorem sub_mirror_refuted_witness :
-  ops_ok false sub_init refute_ops /\
+  sub_ops_ok false sub_init refute_ops /\
   let s := fst (sub_run false sub_init refute_ops) in
   poll_r (sub_poll s) = Some true /\ snd (sub_step false s (PRecv None 9%N true)) = [Complete 9%N E_AGAIN None].
 Proof. split; [cbn; tauto|]. vm_compute. split; reflexivity. Qed.
